@@ -1,5 +1,224 @@
 import BarterModel.Lemmas.Book
+/-!
+# C05 — the local L2 order book equals a price → amount map after any event sequence
+
+Statements only (proofs are in `Lemmas/Book.lean`). The concrete model (`OrderBook.update`,
+`upsert`, `upsertSingle`, `OrderBook.snapshot`, `midPrice`, …) is the one `drv_c05 model` executes;
+the abstract side is (a) the function spec `FBook` (`Rat → Rat` per side, `setLevel` = point update,
+0 = no level) and (b) its executable form `Spec`/`PMap` which `drv_c05 spec` executes.
+
+Quantifier: *every* finite list of events, each a `Snapshot` or an `Update` carrying arbitrary
+level lists (unsorted, duplicates of a price, zero amounts, absent prices: no restriction at all
+on updates), starting from any book satisfying the invariant (in particular `OrderBook::default()`).
+
+Hypothesis on snapshots (`WFBook sn` for every `Snapshot(sn)` in the history): the snapshot's sides
+are in strict book order and carry no zero amount. `new_wf` discharges it for every snapshot built
+by `OrderBook::new` from levels with pairwise distinct prices and non-zero amounts (the documented
+precondition, DESIGN §7 C05: the constructor sorts but neither dedups nor drops zeros). Theorems
+that need only the order half say so (`SortedBook`).
+-/
 namespace BarterModel.Props.C05
 open BarterModel.Book
-theorem sequence_trivial (b : OrderBook) (u : OrderBook) : (b.update (.update u)).sequence = u.sequence := rfl
+
+/-- every snapshot event of the history carries a well-formed book -/
+def WFEvents (evs : List Event) : Prop := ∀ sn, Event.snapshot sn ∈ evs → WFBook sn
+
+/-- every snapshot event of the history carries strictly ordered sides (zero amounts allowed) -/
+def SortedEvents (evs : List Event) : Prop := ∀ sn, Event.snapshot sn ∈ evs → SortedBook sn
+
+/-! ## 1. invariant: strict order, no duplicate price, no zero amount -/
+
+/-- After any event sequence bids are strictly descending, asks strictly ascending and no stored
+amount is zero. -/
+theorem inv {b : OrderBook} (hb : WFBook b) (evs : List Event) (h : WFEvents evs) :
+    WFBook (b.run evs) := wfBook_run hb h
+
+/-- … in particular from the default (empty) book the manager starts with. -/
+theorem inv_from_default (evs : List Event) (h : WFEvents evs) :
+    WFBook (OrderBook.default.run evs) := wfBook_run wfBook_default h
+
+/-- The order half alone needs only ordered snapshots (zero-amount snapshot levels allowed). -/
+theorem sorted_inv {b : OrderBook} (hb : SortedBook b) (evs : List Event) (h : SortedEvents evs) :
+    SortedBook (b.run evs) := sortedBook_run hb h
+
+/-- Spelled out: bids strictly descending, asks strictly ascending (as `<` on prices of any two
+positions `i < j`), and no price appears twice on a side. -/
+theorem strictly_ordered {b : OrderBook} (hb : SortedBook b) :
+    (∀ i j (hi : i < j) (hj : j < b.bids.length), b.bids[j].price < b.bids[i].price) ∧
+    (∀ i j (hi : i < j) (hj : j < b.asks.length), b.asks[i].price < b.asks[j].price) ∧
+    (b.bids.map Level.price).Nodup ∧ (b.asks.map Level.price).Nodup := by
+  refine ⟨?_, ?_, sorted_prices_nodup hb.bids, sorted_prices_nodup hb.asks⟩
+  · intro i j hi hj
+    have := (List.pairwise_iff_getElem.mp hb.bids) i j (by omega) hj hi
+    simpa [Side.before] using this
+  · intro i j hi hj
+    have := (List.pairwise_iff_getElem.mp hb.asks) i j (by omega) hj hi
+    simpa [Side.before] using this
+
+/-- A snapshot constructed by `OrderBook::new` from levels with pairwise distinct prices and
+non-zero amounts (in any order) is well-formed, and holds exactly the given levels. -/
+theorem new_wf (seq : Nat) (bids asks : List Level)
+    (hb : (bids.map Level.price).Nodup) (ha : (asks.map Level.price).Nodup)
+    (zb : NonZero bids) (za : NonZero asks) :
+    WFBook (OrderBook.new seq bids asks) ∧
+    (OrderBook.new seq bids asks).bids.Perm bids ∧ (OrderBook.new seq bids asks).asks.Perm asks ∧
+    (OrderBook.new seq bids asks).sequence = seq :=
+  ⟨wfBook_new hb ha zb za, sortLevels_perm _ _, sortLevels_perm _ _, rfl⟩
+
+/-! ## 2. one upsert = one point update of the map; an update event = its changes in list order -/
+
+/-- `upsert_single` on a strictly ordered side is the point update of the denoted function:
+amount zero deletes (the function becomes 0 there), any other amount sets it, every other price is
+untouched; deleting an absent level changes nothing (`setLevel m p 0 = m` when `m p = 0`). -/
+theorem abs_upsertSingle (s : Side) (ls : List Level) (new : Level) (h : Sorted s ls) :
+    ∀ q, abs (upsertSingle s new ls) q = if q = new.price then new.amount else abs ls q := by
+  intro q; rw [Book.abs_upsertSingle h]; rfl
+
+/-- deleting an absent level is a no-op on the stored list itself (not only on the function) -/
+theorem delete_absent_noop (s : Side) (ls : List Level) (new : Level) (h : Sorted s ls)
+    (hz : NonZero ls) (hzero : new.amount = 0) (habsent : ∀ l ∈ ls, l.price ≠ new.price) :
+    upsertSingle s new ls = ls := by
+  apply canonical (sorted_upsertSingle h) h (nonZero_upsertSingle hz) hz
+  funext q
+  rw [Book.abs_upsertSingle h, setLevel, hzero]
+  by_cases hq : q = new.price
+  · rw [if_pos hq, hq, abs_eq_zero_of_not_mem habsent]
+  · rw [if_neg hq]
+
+/-- a whole update list (any order, duplicates: the later entry wins) -/
+theorem abs_upsert (s : Side) (ls update : List Level) (h : Sorted s ls) :
+    abs (upsert s ls update) = applyLevels (abs ls) update := Book.abs_upsert h
+
+/-- Refinement to the function spec, for all histories: the functions denoted by the book after
+the events are the abstract map after the same events (snapshot = replace, update = point updates
+in list order), and so is the sequence. Needs only ordered snapshots. -/
+theorem abs_run {b : OrderBook} (hb : SortedBook b) (evs : List Event) (h : SortedEvents evs) :
+    absBook (b.run evs) = (absBook b).run evs := absBook_run hb h
+
+/-! ## 3. the book holds *exactly* the levels of the map -/
+
+/-- Two sides satisfying the invariant that denote the same function are the same list: the stored
+list is determined by the map. -/
+theorem canonical (s : Side) (a b : List Level) (ha : Sorted s a) (hb : Sorted s b)
+    (za : NonZero a) (zb : NonZero b) (h : abs a = abs b) : a = b := Book.canonical ha hb za zb h
+
+/-- After any history, a level `(p, a)` is stored on a side iff the abstract map (the fold of the
+events over the initial map) has the non-zero amount `a` at `p`. -/
+theorem holds_exactly {b : OrderBook} (hb : WFBook b) (evs : List Event) (h : WFEvents evs) (l : Level) :
+    (l ∈ (b.run evs).bids ↔ (((absBook b).run evs).bids l.price = l.amount ∧ l.amount ≠ 0)) ∧
+    (l ∈ (b.run evs).asks ↔ (((absBook b).run evs).asks l.price = l.amount ∧ l.amount ≠ 0)) := by
+  have hw := wfBook_run hb h
+  have hr := absBook_run hb.toSortedBook (fun sn hs => (h sn hs).toSortedBook)
+  rw [← hr]
+  exact ⟨mem_iff_abs hw.bids hw.bidsNonZero l, mem_iff_abs hw.asks hw.asksNonZero l⟩
+
+/-! ## 4. best bid / ask, mid-price, volume-weighted mid-price, depth-limited snapshots, sequence -/
+
+/-- The first bid is the highest-priced point of the bid map's support, with the map's amount. -/
+theorem best_bid_is_max {b : OrderBook} (hb : WFBook b) (l : Level) (hl : b.bids.head? = some l) :
+    abs b.bids l.price = l.amount ∧ l.amount ≠ 0 ∧ ∀ q, abs b.bids q ≠ 0 → q ≤ l.price := by
+  obtain ⟨h1, h2, h3⟩ := head_is_best hb.bids hb.bidsNonZero l hl
+  refine ⟨h1, h2, fun q hq => ?_⟩
+  rcases h3 q hq with h | h
+  · rw [h]; exact Rat.le_refl
+  · simp only [Side.before, decide_eq_true_eq] at h; exact Rat.le_of_lt h
+
+/-- The first ask is the lowest-priced point of the ask map's support, with the map's amount. -/
+theorem best_ask_is_min {b : OrderBook} (hb : WFBook b) (l : Level) (hl : b.asks.head? = some l) :
+    abs b.asks l.price = l.amount ∧ l.amount ≠ 0 ∧ ∀ q, abs b.asks q ≠ 0 → l.price ≤ q := by
+  obtain ⟨h1, h2, h3⟩ := head_is_best hb.asks hb.asksNonZero l hl
+  refine ⟨h1, h2, fun q hq => ?_⟩
+  rcases h3 q hq with h | h
+  · rw [h]; exact Rat.le_refl
+  · simp only [Side.before, decide_eq_true_eq] at h; exact Rat.le_of_lt h
+
+/-- A side has no best level exactly when its map is empty. -/
+theorem no_best_iff_empty {b : OrderBook} (hb : WFBook b) :
+    (b.bids.head? = none ↔ ∀ q, abs b.bids q = 0) ∧ (b.asks.head? = none ↔ ∀ q, abs b.asks q = 0) :=
+  ⟨head_none_iff hb.bidsNonZero, head_none_iff hb.asksNonZero⟩
+
+/-- Refinement to the *executable* map specification (the one `drv_c05 spec` runs, in which levels
+are "the entries sorted by price", the best level is "the entry no other entry beats", and a
+depth-`d` snapshot is "the first `d` sorted levels"), for all histories from the default book:
+the whole book (sequence, bids, asks), `mid_price`, `volume_weighed_mid_price` and `snapshot(d)`
+for every depth are those of the map. -/
+theorem refines_spec (evs : List Event) (h : WFEvents evs) :
+    let b := OrderBook.default.run evs
+    let s := Spec.init.run evs
+    b = s.book ∧
+    b.midPrice = s.midPrice ∧
+    b.volumeWeightedMidPrice = s.volumeWeightedMidPrice ∧
+    ∀ d, b.snapshot d = s.snapshot d := by
+  have hr := refines_run refines_init h
+  exact ⟨hr.book_eq, hr.midPrice_eq, hr.vwMidPrice_eq, hr.snapshot_eq⟩
+
+/-- The same from any start: a book and a map that agree keep agreeing, on every observable. -/
+theorem refines_spec_from {b : OrderBook} {s : Spec} (h0 : Refines b s) (evs : List Event)
+    (h : WFEvents evs) :
+    b.run evs = (s.run evs).book ∧
+    (b.run evs).midPrice = (s.run evs).midPrice ∧
+    (b.run evs).volumeWeightedMidPrice = (s.run evs).volumeWeightedMidPrice ∧
+    ∀ d, (b.run evs).snapshot d = (s.run evs).snapshot d := by
+  have hr := refines_run h0 h
+  exact ⟨hr.book_eq, hr.midPrice_eq, hr.vwMidPrice_eq, hr.snapshot_eq⟩
+
+/-- `snapshot(depth)` of an ordered book is the first `depth` levels of each side (re-sorting in
+the constructor changes nothing), with the same sequence; it is again well-formed. -/
+theorem snapshot_depth {b : OrderBook} (hb : WFBook b) (d : Nat) :
+    b.snapshot d = ⟨b.sequence, b.bids.take d, b.asks.take d⟩ ∧ WFBook (b.snapshot d) := by
+  have he := snapshot_eq hb.toSortedBook d
+  refine ⟨he, ?_⟩
+  rw [he]
+  exact { bids := sorted_take hb.bids d, asks := sorted_take hb.asks d,
+          bidsNonZero := fun l hl => hb.bidsNonZero l (List.mem_of_mem_take hl),
+          asksNonZero := fun l hl => hb.asksNonZero l (List.mem_of_mem_take hl) }
+
+/-- The book's sequence is that of the last applied event (no hypothesis at all). -/
+theorem sequence_last (b : OrderBook) (evs : List Event) :
+    (b.run evs).sequence = (evs.getLast?.map (·.book.sequence)).getD b.sequence := sequence_run b evs
+
+/-! ## 5. the manager applies each instrument's events to that instrument's book only -/
+
+/-- After any stream, every configured book is its initial book run over exactly the items
+addressed to its key, in stream order; reconnecting notices and items for non-configured keys
+change nothing. -/
+theorem manager_applies_per_instrument (books : Books) (stream : List StreamEvent) :
+    managerRun books stream = books.map (fun kb => (kb.1, kb.2.run (eventsFor kb.1 stream))) :=
+  managerRun_eq books stream
+
+/-! ## Non-vacuity: the hypotheses are satisfiable by non-trivial values, conclusions are not
+trivially true -/
+
+/-- a well-formed snapshot -/
+def exSnap : OrderBook := ⟨5, [⟨101, 2⟩, ⟨100, 1⟩], [⟨102, 3/2⟩, ⟨103, 1⟩]⟩
+
+/-- an update with a duplicate price (99: the later entry wins), a delete of a present level (101,
+102), a delete of an absent level (50), inserts at the back (99 for bids, 104 for asks) and at the
+front (101.5 for asks) -/
+def exUpd : OrderBook :=
+  ⟨6, [⟨101, 0⟩, ⟨99, 3⟩, ⟨99, 4⟩, ⟨50, 0⟩], [⟨203/2, 7⟩, ⟨104, 1⟩, ⟨102, 0⟩]⟩
+
+example : WFBook exSnap := by
+  refine { bids := ?_, asks := ?_, bidsNonZero := ?_, asksNonZero := ?_ } <;> decide +kernel
+
+example : WFEvents [.snapshot exSnap, .update exUpd] := by
+  intro sn h
+  simp only [List.mem_cons, Event.snapshot.injEq, reduceCtorEq, List.not_mem_nil, or_false] at h
+  subst h
+  refine { bids := ?_, asks := ?_, bidsNonZero := ?_, asksNonZero := ?_ } <;> decide +kernel
+
+example : OrderBook.default.run [.snapshot exSnap, .update exUpd] =
+    ⟨6, [⟨100, 1⟩, ⟨99, 4⟩], [⟨203/2, 7⟩, ⟨103, 1⟩, ⟨104, 1⟩]⟩ := by decide +kernel
+
+example : (OrderBook.default.run [.snapshot exSnap, .update exUpd]).midPrice = some (403/4) := by
+  decide +kernel
+
+/-- the hypotheses of `new_wf` hold for an unsorted input -/
+example : (([⟨100, 1⟩, ⟨101, 2⟩] : List Level).map Level.price).Nodup ∧
+    NonZero ([⟨100, 1⟩, ⟨101, 2⟩] : List Level) := by decide +kernel
+
+/-- the order hypothesis of `abs_upsertSingle` is necessary: on an unordered side the scan misses
+the level (this is also why snapshots must be ordered) -/
+example : abs (upsertSingle .asks ⟨1, 0⟩ [⟨2, 1⟩, ⟨1, 1⟩]) 1 ≠ 0 := by decide +kernel
+
 end BarterModel.Props.C05
